@@ -33,7 +33,7 @@ Step(levels, cmd) ==
     CASE cmd.c = "assert" -> AddTop(levels, [k |-> "assert", x |-> cmd.x, id |-> "", w |-> 0])
       [] cmd.c = "soft" -> AddTop(levels, [k |-> "soft", x |-> cmd.x, id |-> cmd.id, w |-> cmd.n])
       [] cmd.c \in {"maximize", "minimize", "minmax", "maxmin"} ->
-            AddTop(levels, [k |-> cmd.c, x |-> cmd.x, id |-> "", w |-> 0])
+            AddTop(levels, [k |-> cmd.c, x |-> cmd.x, id |-> "", w |-> cmd.n])      \* n = 1: the objective is :signed
       [] cmd.c = "push" -> levels \o NEmpty(cmd.n)
       [] cmd.c = "pop" -> SubSeq(levels, 1, Len(levels) - cmd.n)
       [] cmd.c = "reset" -> InitLevels
@@ -55,10 +55,10 @@ GoalsOf(entries, acc) ==
          IN  CASE e.k = "assert" -> GoalsOf(Tail(entries), acc)
                [] e.k = "soft" ->
                     IF pos = {}
-                    THEN GoalsOf(Tail(entries), Append(acc, [k |-> "maxsmt", x |-> 0, id |-> e.id, soft |-> <<<<e.x, e.w>>>>]))
+                    THEN GoalsOf(Tail(entries), Append(acc, [k |-> "maxsmt", x |-> 0, id |-> e.id, soft |-> <<<<e.x, e.w>>>>, sg |-> 0]))
                     ELSE LET j == CHOOSE j \in pos : TRUE
                          IN  GoalsOf(Tail(entries), [acc EXCEPT ![j].soft = Append(@, <<e.x, e.w>>)])
-               [] OTHER -> GoalsOf(Tail(entries), Append(acc, [k |-> e.k, x |-> e.x, id |-> "", soft |-> <<>>]))
+               [] OTHER -> GoalsOf(Tail(entries), Append(acc, [k |-> e.k, x |-> e.x, id |-> "", soft |-> <<>>, sg |-> e.w]))
 Goals(levels) == GoalsOf(Live(levels), <<>>)
 
 =============================================================================
